@@ -101,7 +101,7 @@ impl Lexer {
     /// tab, or comma. Newlines are not considered whitespace as it is a
     /// token in the lexer.
     fn is_ws(ch: char) -> bool {
-        ch == ' ' || ch == '\t' || ch == ','
+        ch == ' ' || ch == '\t' || ch == '\r' || ch == ','
     }
 
     /// Check if the given character is a character usable in a symbol.
